@@ -1,9 +1,9 @@
 package rules
 
 import (
-	"sort"
 	"go/token"
 	"go/types"
+	"sort"
 	"strings"
 
 	"f2gcheck/internal/ir"
@@ -474,32 +474,46 @@ func c13(c *Ctx) {
 	// ---- R-wholerpm ------------------------------------------------------------
 	if fn := c.Func(PkgFans, "ComputePwmBoundaries"); fn != nil {
 		n := 0
-		Instrs(fn, func(ins ssa.Instruction) {
-			b, ok := ins.(*ssa.BinOp)
-			if !ok {
-				return
+		// the computation and the helpers of the fans package it hands the curve data to (parameters resolved
+		// to the caller's arguments, so the data keeps its origin GetFanRpmCurveData inside a scan helper)
+		tbw := ir.NewTB(c.P.IsRepoFunc, c.P.FuncKey)
+		tbw.ParamCallers = c.StaticCallers
+		tb := tbw
+		var scanFns []*ssa.Function
+		for f := range c.Closure([]*ssa.Function{fn}, false, func(f *ssa.Function) bool { return load_FuncPkgPath(f) != PkgFans }) {
+			if f.Signature.Recv() == nil || f == fn {
+				scanFns = append(scanFns, f)
 			}
-			switch b.Op {
-			case token.LSS, token.LEQ, token.GTR, token.GEQ, token.EQL, token.NEQ:
-			default:
-				return
-			}
-			fromData := func(v ssa.Value) bool {
-				return tb.Of(v, nil).Has(func(t *ir.Term) bool {
-					return t.Op == "lookup" && termHasCall(t, "GetFanRpmCurveData")
-				})
-			}
-			if !fromData(b.X) && !fromData(b.Y) {
-				return
-			}
-			n++
-			key := c.FK(fn) + "|" + b.Op.String()
-			if basic, ok := b.X.Type().Underlying().(*types.Basic); ok && basic.Info()&types.IsInteger != 0 {
-				c.R.Ok("R-wholerpm", key, c.FK(fn), c.P.Pos(b.Pos()), "RPM comparison on whole (integer) RPM")
-			} else {
-				c.R.Bad("R-wholerpm", key, c.FK(fn), c.P.Pos(b.Pos()), "an RPM value read from the curve data is compared as a fraction ("+b.X.Type().String()+"): start/max PWM are documented to be decided on whole RPM")
-			}
-		})
+		}
+		sort.Slice(scanFns, func(i, j int) bool { return c.FK(scanFns[i]) < c.FK(scanFns[j]) })
+		for _, sf := range scanFns {
+			Instrs(sf, func(ins ssa.Instruction) {
+				b, ok := ins.(*ssa.BinOp)
+				if !ok {
+					return
+				}
+				switch b.Op {
+				case token.LSS, token.LEQ, token.GTR, token.GEQ, token.EQL, token.NEQ:
+				default:
+					return
+				}
+				fromData := func(v ssa.Value) bool {
+					return tb.Of(v, nil).Has(func(t *ir.Term) bool {
+						return t.Op == "lookup" && termHasCall(t, "GetFanRpmCurveData")
+					})
+				}
+				if !fromData(b.X) && !fromData(b.Y) {
+					return
+				}
+				n++
+				key := c.FK(fn) + "|" + b.Op.String()
+				if basic, ok := b.X.Type().Underlying().(*types.Basic); ok && basic.Info()&types.IsInteger != 0 {
+					c.R.Ok("R-wholerpm", key, c.FK(fn), c.P.Pos(b.Pos()), "RPM comparison on whole (integer) RPM")
+				} else {
+					c.R.Bad("R-wholerpm", key, c.FK(fn), c.P.Pos(b.Pos()), "an RPM value read from the curve data is compared as a fraction ("+b.X.Type().String()+"): start/max PWM are documented to be decided on whole RPM")
+				}
+			})
+		}
 		if n == 0 {
 			c.R.Undecided("R-wholerpm", c.FK(fn), c.FK(fn), c.P.Pos(fn.Pos()), "no comparison on curve data found in the boundary computation (anchor unresolved)")
 		}
